@@ -41,6 +41,12 @@ pub fn install(hooks: Arc<dyn Hooks>) {
     *HOOKS.write().unwrap() = Some(hooks);
 }
 
+/// Restart the process-wide id counters of systems and arbiters at zero. Call between runs, while
+/// no system is alive.
+pub fn reset_ids() {
+    crate::system::verif_reset_ids();
+}
+
 /// Remove the hooks.
 pub fn uninstall() {
     *HOOKS.write().unwrap() = None;
